@@ -180,10 +180,34 @@ def compare(ck, tr, br, label, yaml, kind, n, ts, singles, members):
         key = role(kind, n, members, r)
         kf = ck.known_match(key)
         if kf:
+            excused.append(key)
             return ('known', '%s :: %s' % (key, kf['desc']))
         return ('violation', path, '%s: %d of %d members match, rule says %s [%s] doc=%s' % (
             label, cnt, len(ns), nq['verdict'], key, json.dumps(docj)))
+    excused = []
     ck.obligation(label, tr.uni, (v['res'] == TRUE) != want, sample={'rule': yaml.split('\n')[2:6], 'quantifier': [kind, n]}, on_sat=on_sat)
+    if excused:
+        # the recorded finding must not hide anything else: where the engine leaves the member count it has to be on the
+        # count of *batches* (the recorded defect, as a semantics): a batch is true iff one of its members is
+        import oracle as O
+        parts = O.batch_partition(members)
+        bs = [O.t_or([ts[i] for i in b]) if len(b) > 1 else ts[b[0]] for b in parts]
+        want_b = quantifier(kind, n, bs)
+
+        def on_sat_b(model):
+            docj = tr.render_doc(model)
+            nq = br.call(cmd='eval', yaml=yaml, opts=None, doc=docj, mode='flat')
+            wv, wb = z3.is_true(model.eval(want, model_completion=True)), z3.is_true(model.eval(want_b, model_completion=True))
+            path = ck.write_replay(safe(label) + '_beyond_known', {'rule': yaml, 'doc': docj, 'native_quantified': nq, 'by_member_count': wv,
+                                                                   'by_batch_count': wb, 'batches': parts, 'tree': r['display'], 'excused_elsewhere_as': excused[0]})
+            if 'verdict' not in nq:
+                return ('spurious', 'native evaluation failed')
+            ck.replays_ok += 1
+            if nq['verdict'] in (wv, wb):
+                return ('spurious', 'native run agrees with a count (%s)' % path)
+            return ('violation', path, '%s: rule says %s, member count says %s, batch count says %s: not explained by %s; doc=%s' % (
+                label, nq['verdict'], wv, wb, excused[0], json.dumps(docj)))
+        ck.obligation(label + ':beyond-known-findings', tr.uni, z3.And((v['res'] == TRUE) != want, (v['res'] == TRUE) != want_b), on_sat=on_sat_b)
 
 
 def role(kind, n, members, r):
